@@ -86,11 +86,14 @@ const TARGET: [usize; 2] = [2, 2];
 enum Pos {
     Unique,
     Same,
+    /// positions as `Unique`, but the stream is supplied as uncompressed BCF whose header lists the
+    /// contigs in the reverse of their IDX order (records refer to contigs by IDX)
+    BcfPermutedContigs,
 }
 
 fn site_name(i: usize, pos: Pos) -> (String, usize) {
     match pos {
-        Pos::Unique => (format!("chr{}", i % 2 + 1), 10 + i),
+        Pos::Unique | Pos::BcfPermutedContigs => (format!("chr{}", i % 2 + 1), 10 + i),
         Pos::Same => ("chr1".to_string(), 10),
     }
 }
@@ -154,15 +157,31 @@ fn parse_skipped(stderr: &str) -> Option<(usize, usize)> {
     Some((x.trim().parse().ok()?, y.parse().ok()?))
 }
 
+/// The stream as BCF (no corrupt symbol: a BCF record cannot carry an unparseable position).
+fn bcf_for(stream: &[Sym]) -> Vec<u8> {
+    let mut cs = crate::gen::CallSet::new(4);
+    cs.contig_lines_reversed = true;
+    for (i, sym) in stream.iter().enumerate() {
+        let gts: Vec<String> = match sym {
+            Sym::Corrupt => unreachable!("no corrupt records in BCF streams"),
+            Sym::Ploidy => vec!["0/1".into(), "0".into(), "0/0".into(), "0/0".into()],
+            Sym::PloidyAfterMissing => vec!["./.".into(), "0/1".into(), "0/1/1".into(), "1/2".into()],
+            other => other.classes(i).unwrap().iter().enumerate().map(|(j, c)| c.spell(i + j).to_string()).collect(),
+        };
+        cs.records.push(crate::gen::Record { chrom: i % 2, pos: 10 + i, alts: vec!["C", "G"], gts, decorated: false });
+    }
+    crate::gen::render(&cs, crate::gen::Container::RawBcf, &crate::gen::Layout::Single)
+}
+
 fn run_mode(stream: &[Sym], mode: Mode, posn: Pos, scratch: &Scratch) -> Out {
-    let vcf = vcf_for(stream, posn);
+    let vcf = if posn == Pos::BcfPermutedContigs { bcf_for(stream) } else { vcf_for(stream, posn).into_bytes() };
     let mut args = vec!["create", "-s", SAMPLES];
     match mode {
         Mode::Default => {}
         Mode::Strict => args.push("--strict"),
         Mode::Project => args.extend(["--project-shape", "3,3", "--precision", "9"]),
     }
-    run_sfs(&args, Stdin::Bytes(vcf.as_bytes()), scratch)
+    run_sfs(&args, Stdin::Bytes(&vcf), scratch)
 }
 
 fn eval(stream: &[Sym], mode: Mode, posn: Pos, scratch: &Scratch) -> Vec<Viol> {
@@ -232,7 +251,7 @@ fn eval(stream: &[Sym], mode: Mode, posn: Pos, scratch: &Scratch) -> Vec<Viol> {
         .into_iter()
         .map(|(k, w)| {
             (
-                format!("C10|cli|{k}|{mode:?}{}", if posn == Pos::Same { "|same-position" } else { "" }),
+                format!("C10|cli|{k}|{mode:?}{}", match posn { Pos::Same => "|same-position", Pos::BcfPermutedContigs => "|bcf-permuted-contigs", Pos::Unique => "" }),
                 format!("stream {} in mode {mode:?} (positions {posn:?}): {w}", stream_str(stream)),
                 J::obj([
                     ("kind", J::s("c10")),
@@ -246,13 +265,59 @@ fn eval(stream: &[Sym], mode: Mode, posn: Pos, scratch: &Scratch) -> Vec<Viol> {
         .collect()
 }
 
+fn eval_cohort(n: usize, p: usize, scratch: &Scratch) -> Option<Viol> {
+    let mut cs = crate::gen::CallSet::new(n);
+    let records = 8usize;
+    let mut expect_skipped = 0usize;
+    for r in 0..records {
+        let n_missing = [0usize, 3, 0, 10, 1, 0, 6, 0][r];
+        let gts: Vec<String> = (0..n)
+            .map(|j| if j < n_missing { "./.".to_string() } else { ["0/0", "0/1", "1/1", "1|0"][(j * (r + 1) + r) % 4].to_string() })
+            .collect();
+        if 2 * (n - n_missing) < 2 * p {
+            expect_skipped += 1;
+        }
+        cs.push_gts(&gts);
+    }
+    let vcf = crate::gen::to_vcf(&cs).0;
+    let ps = p.to_string();
+    let o = run_sfs(&["create", "-p", &ps, "--precision", "9"], Stdin::Bytes(&vcf), scratch);
+    let stderr = o.stderr_str();
+    let verdict: Result<(), String> = (|| {
+        if !o.ok() {
+            return Err(format!("{} {}", o.status_str(), stderr.trim()));
+        }
+        let (_, toks) = parse_text_spectrum(&o.stdout_str())?;
+        let vals = parse_f64_tokens(&toks)?;
+        if vals.iter().any(|v| !v.is_finite() || *v < 0.0) {
+            return Err("non-finite or negative entry".into());
+        }
+        let mass: f64 = vals.iter().sum();
+        let (x, y) = parse_skipped(&stderr).unwrap_or((0, records));
+        if x != expect_skipped || y != records {
+            return Err(format!("reported skipped {x}/{y}, expected {expect_skipped}/{records}"));
+        }
+        if (mass + x as f64 - records as f64).abs() > 1e-6 {
+            return Err(format!("mass {mass} + skipped {x} != {records} records"));
+        }
+        Ok(())
+    })();
+    verdict.err().map(|e| {
+        (
+            format!("C10|cli|cohort-mass-not-conserved|n{}", if n > 85 { ">85" } else { "<=85" }),
+            format!("{n} samples, 8 records, create -p {p}: {e}"),
+            J::obj([("kind", J::s("c10-cohort")), ("samples", J::u(n)), ("individuals", J::u(p))]),
+        )
+    })
+}
+
 fn parse_stream(s: &str) -> Option<Vec<Sym>> {
     s.chars().map(|c| ALPHABET.iter().copied().find(|a| a.letter() == c)).collect()
 }
 
 pub fn run(tier: Tier) -> i32 {
     let mut rep = Report::new("C10", tier, "model_checking");
-    rep.rule = "record streams over the alphabet {counted, missing-in-p0 (projectable), multiallelic, exactly-sufficient, insufficient-in-p0, insufficient-in-p1, ploidy-error, ploidy-error-after-a-missing-sample, corrupt-line} for 4 samples in 2 populations; all streams of length 0..3 (thorough 0..4) plus all length-4 (thorough length-5) streams over a reduced 5-symbol alphabet; x modes {default, --strict, --project-shape 3,3} x positions {pairwise different, all records at one contig:position}; each executed on the real binary. Oracle: reference create; mass + reported skipped = records; Y of 'Skipped X/Y' = records; failure at the first failing record in input order, naming its contig:position for skips and ploidy errors; failing runs write nothing to stdout; a strict run without failing record equals the default run. states = distinct (stream prefix) histories, transitions = records fed to the binary. Non-trivial = a stream containing both a counted record and a skipped/failing one.".into();
+    rep.rule = "record streams over the alphabet {counted, missing-in-p0 (projectable), multiallelic, exactly-sufficient, insufficient-in-p0, insufficient-in-p1, ploidy-error, ploidy-error-after-a-missing-sample, corrupt-line} for 4 samples in 2 populations; all streams of length 0..3 (thorough 0..4) plus all length-4 (thorough length-5) streams over a reduced 5-symbol alphabet; x modes {default, --strict, --project-shape 3,3} x positions {pairwise different, all records at one contig:position} and, for streams without a corrupt line, the same stream as BCF whose header lists the contigs against their IDX order; each executed on the real binary. Oracle: reference create; mass + reported skipped = records; Y of 'Skipped X/Y' = records; failure at the first failing record in input order, naming its contig:position for skips and ploidy errors; failing runs write nothing to stdout; a strict run without failing record equals the default run. states = distinct (stream prefix) histories, transitions = records fed to the binary. Non-trivial = a stream containing both a counted record and a skipped/failing one.".into();
 
     let full_len = tier.pick(3, 4);
     let mut streams: Vec<Vec<Sym>> = sequences(ALPHABET.len(), 0, full_len)
@@ -272,6 +337,9 @@ pub fn run(tier: Tier) -> i32 {
             jobs.push((i, m, Pos::Unique));
             if streams[i].len() >= 2 && streams[i].len() <= full_len {
                 jobs.push((i, m, Pos::Same));
+            }
+            if !streams[i].is_empty() && streams[i].len() <= full_len && !streams[i].contains(&Sym::Corrupt) {
+                jobs.push((i, m, Pos::BcfPermutedContigs));
             }
         }
     }
@@ -301,10 +369,31 @@ pub fn run(tier: Tier) -> i32 {
         name: "cli: record streams x modes".into(),
         evaluations: jobs.len() as u64,
         nontrivial: nt,
-        note: format!("{} streams (all of length 0..{full_len} over 9 symbols + length {extra_len} over 5 symbols) x 3 modes; streams of length 2..{full_len} additionally with every record at the same contig:position", streams.len()),
+        note: format!("{} streams (all of length 0..{full_len} over 9 symbols + length {extra_len} over 5 symbols) x 3 modes; streams of length 2..{full_len} additionally with every record at the same contig:position, and as BCF with permuted contig header lines", streams.len()),
         exhaustive: true,
         extra: vec![("depth_bound".into(), J::u(extra_len))],
     });
+    // cohorts of a hundred and more samples: every counted record still weighs exactly one
+    {
+        let mut cj: Vec<(usize, usize)> = Vec::new();
+        for n in [60usize, 90, 128, 200] {
+            for p in [1usize, 20, n / 2, n - 5, n] {
+                cj.push((n, p));
+            }
+        }
+        let res = par_map(cj.len(), |i| eval_cohort(cj[i].0, cj[i].1, &scratch));
+        for v in res.into_iter().flatten() {
+            rep.violation(v.0, v.1, v.2);
+        }
+        rep.part(Part {
+            name: "cli: cohorts of 60..200 samples".into(),
+            evaluations: cj.len() as u64,
+            nontrivial: cj.len() as u64,
+            note: "one population of 60 / 90 / 128 / 200 samples, 8 records with 0..10 missing samples, -p in {1, 20, n/2, n-5, n}: finite non-negative entries, mass + skipped = records, skipped exactly the records with fewer called samples than the target".into(),
+            exhaustive: true,
+            extra: vec![],
+        });
+    }
     rep.sample(J::obj([
         ("stream", J::s("CMjP")),
         ("mode", J::s("Project")),
@@ -324,13 +413,21 @@ pub fn run(tier: Tier) -> i32 {
 }
 
 pub fn replay(case: &J) -> Option<Vec<String>> {
+    if case.get("kind").and_then(|k| k.as_str()) == Some("c10-cohort") {
+        let scratch = Scratch::new("c10r");
+        return Some(eval_cohort(case.get("samples")?.as_i64()? as usize, case.get("individuals")?.as_i64()? as usize, &scratch).into_iter().map(|(k, w, _)| format!("{k} :: {w}")).collect());
+    }
     let stream = parse_stream(case.get("stream")?.as_str()?)?;
     let mode = match case.get("mode")?.as_str()? {
         "Default" => Mode::Default,
         "Strict" => Mode::Strict,
         _ => Mode::Project,
     };
-    let posn = if case.get("positions").and_then(|p| p.as_str()) == Some("Same") { Pos::Same } else { Pos::Unique };
+    let posn = match case.get("positions").and_then(|p| p.as_str()) {
+        Some("Same") => Pos::Same,
+        Some("BcfPermutedContigs") => Pos::BcfPermutedContigs,
+        _ => Pos::Unique,
+    };
     let scratch = Scratch::new("c10r");
     Some(eval(&stream, mode, posn, &scratch).into_iter().map(|(k, w, _)| format!("{k} :: {w}")).collect())
 }
